@@ -1,5 +1,10 @@
-"""Verify a set of contracts: generate obligations per function and discharge them in a process pool."""
+"""Verify a set of contracts: generate obligations per function, discharge each obligation in a freshly
+forked child process (so a verdict does not depend on which obligations were solved before it)."""
 import sys, time, json, os
+if os.environ.get("PYTHONHASHSEED") != "0":  # deterministic formulas: no hash-order dependence
+    os.environ["PYTHONHASHSEED"] = "0"
+    if __name__ == "__main__":
+        os.execv(sys.executable, [sys.executable, "-m", "pyvc.run"] + sys.argv[1:])
 from concurrent.futures import ProcessPoolExecutor
 from .engine import Engine, discharge, check_satisfiable
 from .registry import Registry
@@ -13,59 +18,53 @@ def load_registry(mods):
     return reg
 
 
+_OBS = []
+
+
+def _solve_one(n):
+    ob = _OBS[n]
+    if os.environ.get("PYVC_FAST"):
+        discharge(ob, timeout_ms=2000, use_cvc5=False, long_ms=1)
+    else:
+        discharge(ob)
+    return n, {"id": ob.oid, "key": ob.key, "kind": ob.kind, "line": ob.lineno, "verdict": ob.verdict,
+               "backend": ob.backend, "time": round(ob.time, 3), "desc": ob.desc, "trace": ob.trace[-6:],
+               "model": ob.model}
+
+
 def _work(args):
-    mods, qual, shard = args
+    global _OBS
+    mods, qual, inner = args
     reg = load_registry(mods)
     eng = Engine(reg)
     c = reg.contracts[qual]
     try:
         res = eng.verify_function(c)
-    except Exception as e:  # engine crash: reported as such, never as a verdict
+    except Exception:  # engine crash: reported as such, never as a verdict
         import traceback
         return {"qualname": qual, "file": c.file, "status": "crash", "reason": traceback.format_exc()[-1500:], "sha": "",
                 "paths": 0, "dropped": [], "notes": [], "called": [], "obligations": []}
     out = {"qualname": qual, "file": c.file, "status": res.status, "reason": res.reason, "sha": res.sha,
            "paths": res.paths, "dropped": res.dropped, "notes": res.notes, "called": res.called, "obligations": []}
     if res.status == "ok":
-        vac = check_satisfiable(eng.facts + eng.requires_pc)
-        out["requires_sat"] = vac
-        fast = bool(os.environ.get("PYVC_FAST"))
-        for n, ob in enumerate(res.obligations):
-            if shard is not None and n % shard[1] != shard[0]:
-                continue
-            if fast:
-                discharge(ob, timeout_ms=2000, use_cvc5=False, long_ms=1)
-            else:
-                discharge(ob)
-            out["obligations"].append({"id": ob.oid, "key": ob.key, "kind": ob.kind, "line": ob.lineno,
-                                       "verdict": ob.verdict, "backend": ob.backend, "time": round(ob.time, 3),
-                                       "desc": ob.desc, "trace": ob.trace[-6:], "model": ob.model})
+        out["requires_sat"] = check_satisfiable(eng.facts + eng.requires_pc)
+        _OBS = res.obligations
+        import multiprocessing as mp
+        ctx = mp.get_context("fork")
+        with ctx.Pool(processes=max(1, min(inner, len(_OBS))), maxtasksperchild=1) as pool:
+            got = pool.map(_solve_one, range(len(_OBS)), chunksize=1)
+        got.sort()
+        out["obligations"] = [g[1] for g in got]
     return out
 
 
 def verify(mods, quals, jobs=16):
     t0 = time.time()
-    reg = load_registry(mods)
-    tasks = []
-    for q in quals:
-        k = getattr(reg.contracts[q], "shards", 1)
-        if k <= 1:
-            tasks.append((mods, q, None))
-        else:
-            tasks += [(mods, q, (i, k)) for i in range(k)]
-    with ProcessPoolExecutor(max_workers=min(jobs, max(1, len(tasks)))) as ex:
-        parts = list(ex.map(_work, tasks))
-    # merge the shards of one function
-    merged = {}
-    for r in parts:
-        m = merged.get(r["qualname"])
-        if m is None:
-            merged[r["qualname"]] = r
-        else:
-            m["obligations"].extend(r["obligations"])
-            if r["status"] != "ok":
-                m["status"], m["reason"] = r["status"], r["reason"]
-    results = [merged[q] for q in quals]
+    outer = max(1, min(len(quals), 4))
+    inner = max(2, jobs // outer)
+    tasks = [(mods, q, inner) for q in quals]
+    with ProcessPoolExecutor(max_workers=outer) as ex:
+        results = list(ex.map(_work, tasks))
     return results, time.time() - t0
 
 
